@@ -30,6 +30,27 @@ prop("C01", "exploration",
      [{"test": "TestC01", "quick": {"checks": 6000, "shards": 2, "timeout": 600},
        "thorough": {"checks": 60000, "shards": 16, "timeout": 3000}}])
 
+prop("C02", "exploration",
+     "cases = the C01 scenario space; both implementations run with a recording debug tracer and the streams "
+     "(depth, pc, op, gas before, cost) of every step, gas of every enter, gasUsed of every exit, refund and leftover gas "
+     "must be equal; then the gas limit of the last invocation is swept over limits derived from the ample-gas run "
+     "(u_i-1, u_i, u_i+1 and u_i+cost_i-1.. for sampled top-level steps i; points between for nested steps) and the "
+     "comparison is repeated per limit. Non-trivial = run contains a dynamic-gas opcode AND a swept limit changed the "
+     "outcome w.r.t. the ample-gas run; distinct = distinct scenario JSON (incl. sweep selectors).",
+     [{"test": "TestC02", "quick": {"checks": 1200, "shards": 4, "timeout": 600},
+       "thorough": {"checks": 12000, "shards": 16, "timeout": 3000}}])
+
+prop("C18", "exploration",
+     "cases = C01 scenario space x tracer configuration (struct logger memory/stack/storage/return-data/limit; callTracer "
+     "onlyTopCall/withLog; flatCallTracer convertParityErrors/includePrecompiles; prestateTracer diffMode; 4byteTracer; "
+     "access-list tracer; none). (a) recorded callback streams incl. stack, memory hash, return data, scope address are "
+     "compared event by event with upstream; (b) upstream eth/tracers/* on upstream EVM vs /repo/tracers/* on artela-evm "
+     "must give byte-equal results; (c) on artela-evm alone, with provider failures injected at generated join-point "
+     "lookups, start/end and enter/exit must be balanced and LIFO and step depths must match the open frames. "
+     "Non-trivial = a nested frame and a fault/revert occurred.",
+     [{"test": "TestC18", "quick": {"checks": 2500, "shards": 4, "timeout": 600},
+       "thorough": {"checks": 25000, "shards": 16, "timeout": 3000}}])
+
 # ---------------------------------------------------------------------------
 # Text for MANIFEST.json (gen_manifest.py)
 
@@ -46,9 +67,27 @@ MANIFEST_TEXT = {
                       "are discarded (counted).",
         "technique": "property-based differential testing against a reference implementation (rapid)",
     },
+    "C02": {
+        "level_text": "Differential property-based testing of the per-step gas stream plus a generated gas-limit sweep around "
+                      "every intermediate gas value of the run, against upstream v1.12.0. Sampling of programs and limits, not "
+                      "proof; exhaustive over limits only for the short runs selected for a full sweep in the thorough tier.",
+        "design_ref": "DESIGN.md section 4, C02",
+        "level_note": "Trusted: upstream core/vm as oracle; the recorder copies (gas, cost) at CaptureState/CaptureFault, "
+                      "CaptureEnter/Exit, CaptureStart/End.",
+        "technique": "property-based differential testing of step-level gas with generated gas-limit sweeps (rapid)",
+    },
+    "C18": {
+        "level_text": "Differential property-based testing of the complete debug-tracer callback stream and of six inherited "
+                      "tracers against their upstream originals, plus a history invariant (balanced LIFO frames) under "
+                      "generated join-point failures.",
+        "design_ref": "DESIGN.md section 4, C18",
+        "level_note": "Trusted: upstream eth/tracers and core/vm as oracle. Tracers that take their environment from "
+                      "CaptureStart are only driven through call/create entry points (upstream's own tracers crash otherwise).",
+        "technique": "property-based differential testing of event streams and tracer outputs + history invariant (rapid)",
+    },
 }
 
 # Properties not (yet) claimed: reason per property. Kept current as checks are added.
 NOT_APPLICABLE = {
-    "C%02d" % i: "check not built yet in this session (planned, see DESIGN.md section 9)" for i in range(2, 21)
+    "C%02d" % i: "check not built yet in this session (planned, see DESIGN.md section 9)" for i in range(1, 21)
 }
